@@ -356,6 +356,23 @@ class Check:
 
     # -- infrastructure -----------------------------------------------------
     def _on_alarm(self, *a):
+        # the time budget is used up.  If the cases judged so far already contain a failing input on the real
+        # code (one that is not a listed known finding) the verdict is reached and must not be lost; otherwise
+        # there is no verdict: exit 2.
+        try:
+            known_ids = {k['id'] for k in self.known if k.get('status') == 'known'}
+            real = [f for f in self.failures if not (f['finding'] and f['finding'] in known_ids)]
+            if real:
+                f = real[0]
+                p = self._replay_path({'property': self.pid, 'kind': 'failing-input', 'seed': self.seed, 'tier': self.tier,
+                                       'case': f['case'], 'input': f['input'], 'impl_output': f['impl'],
+                                       'oracle_clause': f['oracle'], 'others': [x['case'] for x in real[1:20]],
+                                       'note': 'reported when the time budget of %d s ran out; the run did not finish' % self.budget})
+                print('VIOLATION property=%s replay=%s' % (self.pid, p), flush=True)
+                print('TIMEOUT after %d s (verdict from the %d cases judged so far)' % (self.budget, self.evaluations), flush=True)
+                os._exit(1)
+        except Exception:
+            pass
         print('TIMEOUT after %d s' % self.budget, flush=True)
         os._exit(2)
 
